@@ -20,7 +20,8 @@ META = dict(
         "fresh wrapper node; repeat asserts min <= max and dispatches None -> at_least, min == max -> repeat_exact, "
         "min == 0 -> at_most, otherwise repeat_exact(min) ++ at_most(max - min); at_least = repeat_exact(n) ++ "
         "zero_or_more; R3 the JSON string length regex is the template `(?s:.{MIN,MAX})` filled with (min_length, "
-        "max_length) in that order; array/object counts reach bounded_sequence / the array loop in (min, max) order."
+        "max_length) in that order; array/object counts reach bounded_sequence / the array loop in (min, max) order; R4 the memo caches of "
+        "at_most / repeat_exact / string are read and filled only by their own function."
     ),
     not_decided=(
         "the arithmetic of the logarithmic factorisation (at_most, repeat_exact) and of bounded_sequence — needs "
@@ -258,6 +259,32 @@ def run(ctx):
         ok = el == ["r", "z"] and L.named_source(al, al.blocks[ex[0]]["term"]["args"][2]) == "n"
     ctx.check(ok, "C09-R2", "at_least:shape", "at_least(elt, n) = join[repeat_exact(elt, n), zero_or_more(elt)]",
               "at_least no longer is repeat_exact(n) followed by zero_or_more", site=al.where())
+
+    # ------------------------------------------------------------------ R4 memo caches are private to their function
+    # at_most / repeat_exact / string memoise on (element, count): a result stored in the sibling's cache would be
+    # returned for a different repetition (x{0,k} stored where x{k} is looked up)
+    for fld, owner in (("at_most_cache", "at_most"), ("repeat_exact_cache", "repeat_exact"), ("strings", "string")):
+        ins, rd = set(), set()
+        for i, b in P.bodies.items():
+            if not P._is_code(b):
+                continue
+            w, m, r = P.own_effects(b)
+            for (f, callee) in m:
+                if f == (GB, fld):
+                    k = callee.rsplit("::", 1)[-1]
+                    if k in ("insert", "entry", "extend", "get_mut", "push"):
+                        ins.add(i)
+                    elif k not in ("clear",):
+                        rd.add(i)
+            for bi, t in b.calls():
+                if t["f"].get("def", "").endswith("::get") or t["f"].get("def", "").endswith("::contains_key"):
+                    e = b.expr(t["args"][0])
+                    if e[0] in ("ref", "place") and F.place_fields(e[1])[-1:] == [(GB, fld)]:
+                        rd.add(i)
+        want = {GB + "::" + owner}
+        ctx.check(ins == want and rd == want, "C09-R4", "memo-private:" + fld, "%s is read and filled only by %s" % (fld, owner),
+                  "memo cache GrammarBuilder.%s is filled by %s and read by %s (expected only %s): a repetition node can be returned for "
+                  "a different count range" % (fld, sorted(x.rsplit("::", 1)[1] for x in ins), sorted(x.rsplit("::", 1)[1] for x in rd), owner))
 
     # ------------------------------------------------------------------ R3 JSON length bounds
     gs = ctx.body(JC + "::gen_json_string")
